@@ -7,7 +7,7 @@
    Division by zero is an explicit result (C02_DivByZero), never a number. *)
 From Coq Require Import ZArith.
 From mathcomp Require Import all_ssreflect all_algebra.
-From DuneV Require Import C02_Model C02_Spec C02_Proofs C02_Proofs_Closed.
+From DuneV Require Import C02_Model C02_Spec C02_Proofs C02_Proofs_Invert C02_Proofs_Closed.
 Import GRing.Theory.
 Local Open Scope ring_scope.
 
@@ -25,65 +25,63 @@ Theorem C02_solve_sound : forall n A b piv x, (0 < n)%N -> c02_wfm n A -> c02_wf
   c02_solve ops A b piv = C02_Ok x -> c02_wfv n x /\ mx n A *m cv n x = cv n b.
 Proof. exact (solve_sound absr0). Qed.
 
-(* closed forms n = 1,2,3 of invert (Cramer / adjugate "generated by maple"): the returned matrix is a two-sided inverse *)
-Theorem C02_invert_closed : forall n A piv B, (0 < n <= 3)%N -> c02_wfm n A ->
-  c02_invert ops A piv = C02_Ok B -> [/\ c02_wfm n B, mx n A *m mx n B = 1%:M & mx n B *m mx n A = 1%:M].
-Proof. exact (@invert_closed_sound F absr). Qed.
-
-(* closed-form determinant n = 1, 2 is \det.
-   FULL STATEMENT NOT PROVED (hence _partial): the same for n = 3 (c02_det3 A = \det A; missing: the Laplace expansion
-   of a 3x3 mathcomp determinant), and consequently "A \in unitmx -> solve/invert return Ok" for n <= 3. *)
-Theorem C02_det_closed_partial : forall n A piv, (0 < n <= 2)%N -> c02_wfm n A ->
-  c02_determinant ops A piv = C02_Ok (\det (mx n A)).
-Proof. exact (@det_closed_12 F absr). Qed.
-
-(* LU path (n >= 4): the same statement as C02_solve_sound, kept separately *)
-Theorem C02_solve_sound_lu : forall n A b piv x, (3 < n)%N -> c02_wfm n A -> c02_wfv n b ->
-  c02_solve ops A b piv = C02_Ok x -> c02_wfv n x /\ mx n A *m cv n x = cv n b.
-Proof. exact (P_solve_lu_sound absr0). Qed.
-
-(* nonsingular + pivoting => a solution is returned (no FMatrixError, no division by zero) *)
-Theorem C02_solve_pivot_complete_lu : forall n A b, (3 < n)%N -> c02_wfm n A -> c02_wfv n b -> mx n A \in unitmx ->
+(* every n >= 1: nonsingular + pivoting => a solution is returned (no FMatrixError, no division by zero);
+   with C02_solve_sound: solve A b true = Ok x and A x = b *)
+Theorem C02_solve_pivot : forall n A b, (0 < n)%N -> c02_wfm n A -> c02_wfv n b -> mx n A \in unitmx ->
   exists x, c02_solve ops A b true = C02_Ok x.
-Proof. exact (P_solve_lu_complete absr0). Qed.
+Proof. exact (solve_complete absr0). Qed.
 
-(* singular, n >= 4 => FMatrixError, with and without pivoting *)
+(* every n >= 1, pivoting on or off: whatever invert leaves is a two-sided inverse *)
+Theorem C02_invert_sound : forall n A piv B, (0 < n)%N -> c02_wfm n A ->
+  c02_invert ops A piv = C02_Ok B -> mx n A *m mx n B = 1%:M /\ mx n B *m mx n A = 1%:M.
+Proof. exact (invert_sound absr0). Qed.
+
+(* every n >= 1: nonsingular + pivoting => invert succeeds with A*B = B*A = 1
+   (n >= 4: ElimPivot, P*A = L*U read off the stored factors, both triangular solves, column un-permutation) *)
+Theorem C02_invert : forall n A, (0 < n)%N -> c02_wfm n A -> mx n A \in unitmx ->
+  exists B, [/\ c02_invert ops A true = C02_Ok B, mx n A *m mx n B = 1%:M & mx n B *m mx n A = 1%:M].
+Proof. exact (invert_complete absr0). Qed.
+
+(* every n >= 1: determinant with pivoting is \det for EVERY matrix (singular ones: 0) *)
+Theorem C02_det : forall n A, (0 < n)%N -> c02_wfm n A -> c02_determinant ops A true = C02_Ok (\det (mx n A)).
+Proof. exact (det_pivot absr0). Qed.
+
+(* closed forms n <= 3 ignore the pivoting flag *)
+Theorem C02_det_closed : forall n A piv, (0 < n <= 3)%N -> c02_wfm n A ->
+  c02_determinant ops A piv = C02_Ok (\det (mx n A)).
+Proof. exact (@det_closed F absr). Qed.
+
+(* singular, n >= 4 => FMatrixError from solve and invert, with and without pivoting (determinant 0: C02_det) *)
 Theorem C02_singular_solve : forall n A b piv, (3 < n)%N -> c02_wfm n A -> c02_wfv n b -> mx n A \notin unitmx ->
   c02_solve ops A b piv = C02_FMatrixError.
 Proof. exact (P_solve_lu_singular absr0). Qed.
-
-(* determinant with pivoting is \det for EVERY matrix, singular ones included (n >= 4: LU path) *)
-Theorem C02_det_pivot_lu : forall n A, (3 < n)%N -> c02_wfm n A ->
-  c02_determinant ops A true = C02_Ok (\det (mx n A)).
-Proof. exact (P_det_lu_pivot absr0). Qed.
+Theorem C02_singular_invert : forall n A piv, (3 < n)%N -> c02_wfm n A -> mx n A \notin unitmx ->
+  c02_invert ops A piv = C02_FMatrixError.
+Proof. exact (P_invert_lu_singular absr0). Qed.
 
 (* without pivoting: \det whenever the unpivoted elimination runs to completion.
    FULL STATEMENT NOT PROVED (hence _partial): "... whenever all leading principal minors of order < n are non-zero";
    missing: the link between the pivots met by the unpivoted loop and the leading principal minors, and the case of a
-   zero pivot in the last column (where the code returns 0 = \det A). *)
+   zero pivot in the last column (where the code returns 0 = \det A).  The sound halves for the unpivoted mode ARE proved
+   at full strength: C02_solve_sound, C02_invert_sound, C02_singular_solve, C02_singular_invert hold for piv = false. *)
 Theorem C02_det_nopivot_partial : forall n A A' sg, (3 < n)%N -> c02_wfm n A ->
   c02_lu ops (c02_ElimDet ops) n false A 1 = C02_LU_Ok (A', sg) ->
   c02_determinant ops A false = C02_Ok (\det (mx n A)).
 Proof. exact (P_det_lu_nopivot absr0). Qed.
+
 (* NOT PROVED (no theorem; covered by the correspondence check only, see evidence):
-   - C02_invert for n >= 4 (LU with ElimPivot, forward/backward substitution on the identity, column un-permutation):
-       mx n A \in unitmx -> exists B, c02_invert ops A true = C02_Ok B /\ mx n A *m mx n B = 1%:M /\ mx n B *m mx n A = 1%:M
-     and  mx n A \notin unitmx -> c02_invert ops A piv = C02_FMatrixError  for 3 < n.
-     The LU loop invariant (C02_Proofs.lu_loop_inv) is generic in the functor and applies to ElimPivot; what is missing is the
-     explicit P*A = L*U reading of the stored factors and the two triangular solves.
-   - FMatrixHelp::invertMatrix(_retTransposed) (same closed forms as invert; c02_help_invert): tested exhaustively, not proved.
-   - DiagonalMatrix solve/invert/determinant (the c02_diag functions): tested, not proved.
    - "inputs unchanged": the model is purely functional (A, b are values); the impl side of the correspondence check
      compares A and b before/after every solve/determinant call (flag U). *)
 End Statements.
 
 Print Assumptions C02_solve_sound.
-Print Assumptions C02_invert_closed.
-Print Assumptions C02_det_closed_partial.
-Print Assumptions C02_solve_sound_lu.
-Print Assumptions C02_solve_pivot_complete_lu.
+Print Assumptions C02_solve_pivot.
+Print Assumptions C02_invert_sound.
+Print Assumptions C02_invert.
+Print Assumptions C02_det.
+Print Assumptions C02_det_closed.
 Print Assumptions C02_singular_solve.
-Print Assumptions C02_det_pivot_lu.
+Print Assumptions C02_singular_invert.
 Print Assumptions C02_det_nopivot_partial.
 
 (* ---- non-vacuity: the hypotheses are satisfiable by non-trivial values.  'F_7 with absr = representative. *)
